@@ -140,14 +140,16 @@ def write_list(case):
     pws = []
     for p, c in case['entries']:
         pws += [p] * c
-    trainer.write_training_file(path, pws, 'utf-8')
+    trainer.write_list(path, case['entries'], 'utf-8', case.get('spelling', 'plain'))
     return path, pws
 
 
 def prop(case, rec):
     path, pws = write_list(case)
     out = os.path.join(_dir(), 'R')
-    kw = dict(encoding='utf-8', coverage=case['coverage'], ngram=case['ngram'], alphabet_size=case['alphabet_size'])
+    kw = dict(encoding='utf-8', coverage=case['coverage'], ngram=case['ngram'], alphabet_size=case['alphabet_size'],
+              prefixcount=case.get('spelling', 'plain') != 'plain')
+    rec.cls('list_spelling_' + case.get('spelling', 'plain'))
     r = guard(case, trainer.train, path, out, **kw)
     if not r.ok:
         if r.error is not None and not isinstance(r.error, ZeroDivisionError):
@@ -227,7 +229,7 @@ def cases(draw):
         entries += [['password1', 6], ['monkey12', 5], ['iloveyou', 5], ['love2019!', 2]]
     cov = draw(st.sampled_from([0, 0.001, 0.1, 0.3, 0.5, 0.6, 0.9, 1, 1]))
     return {'entries': entries, 'coverage': cov, 'ngram': draw(st.sampled_from([2, 3, 4, 5])),
-            'alphabet_size': draw(st.sampled_from([100, 30, 10, 5]))}
+            'alphabet_size': draw(st.sampled_from([100, 30, 10, 5])), 'spelling': draw(st.sampled_from(trainer.SPELLINGS))}
 
 
 def run_main(rec, seed, shard, nshards, tier):
@@ -250,7 +252,8 @@ print(json.dumps({'ok': bool(r.ok)}))
 def prop_sub(case, rec):
     path, pws = write_list(case)
     out = os.path.join(_dir(), 'RA')
-    kw = dict(encoding='utf-8', coverage=case['coverage'], ngram=case['ngram'], alphabet_size=case['alphabet_size'])
+    kw = dict(encoding='utf-8', coverage=case['coverage'], ngram=case['ngram'], alphabet_size=case['alphabet_size'],
+              prefixcount=case.get('spelling', 'plain') != 'plain')
     r = guard(case, trainer.train, path, out, **kw)
     if not r.ok:
         rec.skip('trainer_did_not_complete')
@@ -338,14 +341,15 @@ def prop_cli(case, rec):
         _CLI[0] = session.copy_cli(session.make_root('c06cli'))
     root = _CLI[0]
     path, pws = write_list(case)
-    kw = dict(encoding='utf-8', coverage=case['coverage'], ngram=case['ngram'], alphabet_size=max(10, case['alphabet_size']))
+    pc = case.get('spelling', 'plain') != 'plain'
+    kw = dict(encoding='utf-8', coverage=case['coverage'], ngram=case['ngram'], alphabet_size=max(10, case['alphabet_size']), prefixcount=pc)
     out = os.path.join(_dir(), 'RL')
     r = guard(case, trainer.train, path, out, save_sensitive=False, **kw)
     import shutil
     shutil.rmtree(os.path.join(root, 'Rules', 'T'), ignore_errors=True)
     env = dict(os.environ, PYTHONUTF8='1', LC_ALL='C.UTF-8', PYTHONDONTWRITEBYTECODE='1', PYTHONWARNINGS='ignore')
     cmd = [sys.executable, os.path.join(root, 'trainer.py'), '-t', path, '-r', 'T', '-e', 'utf-8', '-c', str(case['coverage']),
-           '-n', str(case['ngram']), '-a', str(kw['alphabet_size'])]
+           '-n', str(case['ngram']), '-a', str(kw['alphabet_size'])] + (['--prefixcount'] if pc else [])
     try:
         p = subprocess.run(cmd, stdin=subprocess.DEVNULL, capture_output=True, text=True, env=env, cwd=root, timeout=600)
     except subprocess.TimeoutExpired:
